@@ -22,6 +22,7 @@ pub fn sizes(tier: &str) -> Sizes {
 fn pool(r: &mut Rng, n: usize) -> Vec<JsonShape> {
     let mut p = small_shapes();
     p.extend(medium_shapes());
+    p.extend(dict_shapes());
     for i in 0..n {
         p.push(rand_shape(r, 1 + i % 4));
     }
@@ -49,6 +50,12 @@ fn pairs(r: &mut Rng, sz: &Sizes) -> Vec<(JsonShape, JsonShape)> {
                 out.push((a.clone(), b.clone()));
             }
         }
+    }
+    for d in dict_shapes() {
+        let o = json_shape::verif::as_optional(d.clone());
+        out.push((d.clone(), d.clone()));
+        out.push((d.clone(), o.clone()));
+        out.push((o, d));
     }
     let p = pool(r, 200);
     for _ in 0..sz.pairs {
@@ -187,6 +194,28 @@ pub fn c02(r: &mut Rng, sz: &Sizes, out: &mut Vec<String>) {
             out.push(format!("supersetchk\t{}\t{h}", sx(s)));
         }
     }
+    // a member name repeated in one object (alike or respelled): whatever the text query answers, true needs the
+    // document — whose member holds the LAST value — to be admitted
+    {
+        let (dup, sib) = spelled_names();
+        let num = JsonShape::Number { optional: false };
+        let shapes = [
+            obj(vec![("a", num.clone())], false),
+            obj(vec![("ab", num.clone())], false),
+            obj(vec![("\u{e9}", num.clone())], false),
+            obj(vec![("\u{1f600}", arr(num.clone(), false))], false),
+            obj(vec![("/", obj(vec![], false))], false),
+            arr(obj(vec![("a", num.clone())], false), false),
+            obj(vec![("a", JsonShape::Null)], false),
+        ];
+        for t in dup.iter().chain(sib.iter()) {
+            let h = crate::wire::hex(t.as_bytes());
+            for sh in &shapes {
+                out.push(format!("superset\t{}\t{h}", sx(sh)));
+                out.push(format!("supersetchk\t{}\t{h}", sx(sh)));
+            }
+        }
+    }
     // (shape, text) pairs: the shape is inferred from a related history
     for _ in 0..sz.docs {
         let h = rand_history(r, &DKEYS[..12]);
@@ -272,9 +301,36 @@ fn docs(r: &mut Rng, sz: &Sizes) -> Vec<J> {
     out.extend(width_docs());
     out.extend(near_equal_docs());
     out.extend(small_scope_docs());
+    out.extend(dict_docs());
     for i in 0..sz.docs {
         let depth = i % 5;
         out.push(rand_doc(r, depth, DKEYS));
+    }
+    out
+}
+
+/// DICTIONARY: every string literal of the library's source as a member name (alone, beside others, missing from
+/// a sibling, nested in itself), as a string value; and the WIDTH families once more at the neighbours of every
+/// integer literal of the source (a threshold the code mentions)
+pub fn dict_docs() -> Vec<J> {
+    let mut t: Vec<String> = Vec::new();
+    for w in crate::dict::words() {
+        let q = serde_json::to_string(&w).unwrap();
+        t.push(format!("{{{q}:1}}"));
+        t.push(format!("{{{q}:\"s\",\"name\":\"x\",\"n\":null}}"));
+        t.push(format!("[{{{q}:1,\"id\":1}},{{\"id\":2}}]"));
+        t.push(format!("[{{\"id\":1}},{{{q}:[1,\"x\"],\"id\":2}}]"));
+        t.push(format!("{{{q}:{{{q}:[{q}]}}}}"));
+        t.push(format!("[{q},{q}]"));
+    }
+    let mut out: Vec<J> = t.iter().filter_map(|x| serde_json::from_str::<serde_json::Value>(x).ok().map(|_| parse_j(x))).collect();
+    out.extend(width_docs_at(&crate::dict::sizes(1200)));
+    // member names and strings whose LENGTH sits at a threshold
+    for n in crate::dict::sizes(2000) {
+        let k = "k".repeat(n);
+        out.push(parse_j(&format!("{{\"{k}\":1}}")));
+        out.push(parse_j(&format!("[{{\"{k}a\":1}},{{\"{k}b\":2}}]")));
+        out.push(parse_j(&format!("[\"{k}\"]")));
     }
     out
 }
@@ -339,8 +395,15 @@ pub fn near_equal_docs() -> Vec<J> {
 /// members whose last member alone is special, arrays of n objects of which only the last lacks / adds a key,
 /// for n around every power of two up to 300 — a loop that samples, batches or stops early shows only here
 pub fn width_docs() -> Vec<J> {
+    width_docs_at(&[7, 8, 9, 15, 16, 17, 31, 32, 33, 63, 64, 65, 100, 127, 128, 129, 255, 256, 257, 300])
+}
+
+pub fn width_docs_at(ns: &[usize]) -> Vec<J> {
     let mut out = Vec::new();
-    for n in [7usize, 8, 9, 15, 16, 17, 31, 32, 33, 63, 64, 65, 100, 127, 128, 129, 255, 256, 257, 300] {
+    for &n in ns {
+        if n < 2 {
+            continue;
+        }
         let many = |e: &str, last: &str| -> String {
             let mut v = vec![e.to_string(); n];
             v.push(last.to_string());
@@ -450,6 +513,10 @@ pub fn c01(r: &mut Rng, sz: &Sizes, out: &mut Vec<String>) {
         let hexes: Vec<String> = h.iter().map(|d| crate::wire::hex(d.as_bytes())).collect();
         out.push(format!("sourcesdoc\t{}\t!ok *", hexes.join("\t")));
     }
+    // one member name spelled differently in sibling elements, as a source
+    for t in spelled_names().1 {
+        out.push(format!("sourcesdoc\t{}\t!ok *", crate::wire::hex(t.as_bytes())));
+    }
     // wide documents as single sources and next to a narrow sibling
     for d in width_docs().into_iter().chain(conflict_docs()) {
         out.push(format!("sourcesdoc\t{}\t!ok *", hex_doc(&d, 0)));
@@ -472,6 +539,11 @@ pub fn c01(r: &mut Rng, sz: &Sizes, out: &mut Vec<String>) {
 }
 
 pub fn c06(r: &mut Rng, sz: &Sizes, out: &mut Vec<String>) {
+    for t in spelled_names().1 {
+        let h = crate::wire::hex(t.as_bytes());
+        out.push(format!("inferdoc\t{h}"));
+        out.push(format!("inferv\t{h}"));
+    }
     for d in docs(r, sz) {
         for style in 0..4 {
             if style == 0 || r.chance(1, 3) {
@@ -516,6 +588,12 @@ pub fn c08(r: &mut Rng, sz: &Sizes, out: &mut Vec<String>) {
 }
 
 pub fn c17(r: &mut Rng, sz: &Sizes, out: &mut Vec<String>) {
+    for t in spelled_names().1 {
+        let h = crate::wire::hex(t.as_bytes());
+        out.push(format!("inferdoc\t{h}"));
+        out.push(format!("inferv\t{h}"));
+        out.push(format!("p_c17\t{h}\t!ok"));
+    }
     fn subdocs(d: &J, out: &mut Vec<J>) {
         out.push(d.clone());
         match d {
@@ -580,6 +658,10 @@ pub fn small_histories() -> Vec<Vec<String>> {
         "[1,\"a\",true]", "[null,\"a\"]",
         // tuples whose compound elements are widened by a later document and then met again
         "[{\"a\":1},1]", "[{\"a\":1,\"b\":null},1]", "[[{\"a\":1}],\"x\"]", "[[{\"a\":1},{}],\"x\"]",
+        // an optional member of every kind (the element that lacks it makes it optional) and followers of every
+        // kind at the same path
+        "[{\"a\":[1,\"s\"]},{}]", "[{\"a\":[true]}]", "[{\"a\":2}]", "[{\"a\":[1,2]},{}]", "[{\"a\":\"x\"}]", "[{\"a\":{\"b\":1}}]",
+        "[{\"a\":[1,\"s\",null]}]",
     ];
     let mut out = Vec::new();
     for a in pool {
@@ -598,7 +680,13 @@ pub fn small_histories() -> Vec<Vec<String>> {
 /// member, a null), n around powers of two up to 300
 pub fn width_histories() -> Vec<Vec<String>> {
     let mut out = Vec::new();
-    for n in [8usize, 9, 16, 17, 32, 33, 64, 65, 128, 129, 256, 257, 300] {
+    let mut ns = vec![8usize, 9, 16, 17, 32, 33, 64, 65, 128, 129, 256, 257, 300];
+    for k in crate::dict::sizes(400) {
+        if !ns.contains(&k) {
+            ns.push(k);
+        }
+    }
+    for n in ns {
         for (e, last) in [
             ("{\"id\":1,\"tag\":\"x\"}", "{\"id\":2}"), ("{\"id\":1}", "{\"id\":null}"), ("{\"id\":1}", "null"), ("[1,2]", "[1,\"x\"]"),
             ("[1,\"x\"]", "[null]"), ("1", "\"s\""), ("{\"a\":[1]}", "{\"a\":[]}"), ("[{\"k\":1}]", "[{\"k\":1},{}]"),
@@ -705,6 +793,24 @@ pub fn c09(r: &mut Rng, sz: &Sizes, out: &mut Vec<String>) {
         let hexes: Vec<String> = h.iter().map(|d| hex_doc(d, r.below(4))).collect();
         out.push(format!("p_c09\t{k}\t{}\t!ok *", hexes.join("\t")));
     }
+    // one position of a two-slot tuple taken by every ordered pair of small documents (`[X,1]` then `[Y,1]`, then each
+    // again): what the position keeps when a tuple meets an array there, an array a tuple, a narrower a wider one
+    {
+        let xs = [
+            "null", "1", "\"s\"", "[]", "[1]", "[null]", "{}", "{\"a\":1}", "[1,\"x\"]", "[[]]", "[[],[]]", "[[],[null]]", "[[1],[2]]", "[[1],[\"x\"]]",
+            "[{\"x\":1}]", "[{\"x\":1},{\"y\":2}]", "[[{\"x\":1}],[{\"y\":2}]]", "[[{\"x\":1},{\"y\":2}],[{\"x\":3},{\"y\":4}]]", "[1,[2]]", "[[1,\"x\"],[2,\"y\"]]",
+        ];
+        let hx = |t: &str| crate::wire::hex(t.as_bytes());
+        for x in xs {
+            for y in xs {
+                if x != y {
+                    out.push(format!("p_c09\t{k}\t{}\t{}\t!ok *", hx(&format!("[{x},1]")), hx(&format!("[{y},1]"))));
+                    out.push(format!("p_c09\t{k}\t{}\t{}\t!ok *", hx(&format!("[\"g\",{x}]")), hx(&format!("[\"g\",{y}]"))));
+                    out.push(format!("p_cycle\t{}\t{}", hx(&format!("[{x},1]")), hx(&format!("[{y},1]"))));
+                }
+            }
+        }
+    }
     // groups of documents fed over and over in turn (a, b, a, b, ...): every ordered pair and a sample of
     // triples of the fixed documents, each also below a member and below an array; random groups
     let fixed = cycle_docs();
@@ -745,6 +851,7 @@ pub fn c11(r: &mut Rng, sz: &Sizes, out: &mut Vec<String>) {
     for i in 0..sz.shapes * 2 {
         p.push(rand_shape(r, 1 + i % 4));
     }
+    p.extend(dict_shapes());
     // a few shapes whose keys need quoting / escaping in JSON
     for k in ["key space", "q\"uote", "back\\slash", "tab\tkey", "new\nline", "\u{1}ctl", "\u{e9}", ""] {
         let mut c = std::collections::BTreeMap::new();
@@ -1149,7 +1256,41 @@ pub fn text_corpus(r: &mut Rng, sz: &Sizes, thorough: bool) -> Vec<String> {
     texts
 }
 
+/// objects that REPEAT a member name, the two occurrences spelled alike or differently (literal, `\\uXXXX` in either
+/// hex case, surrogate pair, short escape), with values of equal and of conflicting shapes, at top level, inside an
+/// array, in a later element of an array of objects, between other members; and one name spelled differently in
+/// sibling elements of an array of objects (no repetition inside one object)
+pub fn spelled_names() -> (Vec<String>, Vec<String>) {
+    let spellings: [(&str, &str); 9] = [
+        ("a", "a"), ("a", "\\u0061"), ("\\u0061", "a"), ("\\u00e9", "\u{e9}"), ("\\u00E9", "\\u00e9"), ("\u{1f600}", "\\ud83d\\ude00"),
+        ("\\/", "/"), ("a\\u0062", "ab"), ("\\n", "\\u000a"),
+    ];
+    let values: [(&str, &str); 7] = [("1", "2"), ("1", "\"x\""), ("[1]", "[2]"), ("[1]", "[\"x\"]"), ("{}", "{\"b\":1}"), ("null", "1"), ("[1,2]", "{\"n\":true}")];
+    let mut dup = Vec::new();
+    let mut sib = Vec::new();
+    for (k1, k2) in spellings {
+        for (v1, v2) in values {
+            dup.push(format!("{{\"{k1}\":{v1},\"{k2}\":{v2}}}"));
+            dup.push(format!("[{{\"{k1}\":{v1},\"{k2}\":{v2}}}]"));
+            dup.push(format!("[{{\"id\":1}},{{\"id\":2,\"{k1}\":{v1},\"z\":0,\"{k2}\":{v2}}}]"));
+            dup.push(format!("{{\"m\":{{\"x\":true,\"{k1}\":{v1},\"{k2}\":{v2},\"y\":null}}}}"));
+            sib.push(format!("[{{\"{k1}\":{v1},\"c\":true}},{{\"{k2}\":{v1},\"c\":false}}]"));
+            sib.push(format!("[{{\"{k1}\":{v1}}},{{\"{k2}\":{v2}}},{{}}]"));
+            sib.push(format!("{{\"rows\":[{{\"{k2}\":{v1},\"id\":1}},{{\"id\":2,\"{k1}\":{v1}}},{{\"id\":3,\"{k2}\":{v1}}}]}}"));
+        }
+    }
+    (dup, sib)
+}
+
 pub fn c04(r: &mut Rng, sz: &Sizes, out: &mut Vec<String>) {
+    let (dup, sib) = spelled_names();
+    for t in dup.iter().chain(sib.iter()) {
+        let h = crate::wire::hex(t.as_bytes());
+        out.push(format!("inferdoc\t{h}"));
+        out.push(format!("supersetchk\t(O0 (k61 U0))\t{h}"));
+        out.push(format!("superset\t(O0 (k61 U0))\t{h}"));
+        out.push(format!("sourcesdoc\t{}\t{h}", crate::wire::hex(b"{}")));
+    }
     let thorough = sz.histories > 10_000;
     let shape = "(A0 U0)";
     for t in text_corpus(r, sz, thorough) {
@@ -1533,6 +1674,16 @@ fn source_sets(r: &mut Rng, n: usize) -> Vec<Vec<String>> {
             out.push(vec![format!("[{}]", slots.join(","))]);
         }
         out.push(vec!["{\"v\":1}", "{\"v\":\"s\"}", "{\"v\":true}", "{\"v\":[1]}", "{\"v\":{\"a\":1}}", "{\"v\":[1,\"x\"]}", "{\"v\":null}"].iter().map(|x| x.to_string()).collect());
+    }
+    // DICTIONARY: the string literals of the library's and the generator's own source as member names
+    // (names with a line break are left out here: the `codegen` crate re-indents after every line break it
+    // writes, which the model of the rendering does not follow — such names are no identifiers anyway, D17)
+    for w in crate::dict::words() {
+        if w.contains('\n') || w.contains('\r') {
+            continue;
+        }
+        let q = serde_json::to_string(&w).unwrap();
+        out.push(vec![format!("{{{q}:1,\"plain\":\"x\"}}")]);
     }
     // member names of every awkward category: non-ASCII letters (legal identifiers), keywords and reserved
     // words, leading digits, underscores only, names that differ only in case or separators, very long
